@@ -70,6 +70,9 @@ NEG_SPECS = [
     {'name': 'all-extmsg', 'families': ALL_FAMILIES, 'asn4': True, 'addpath': ADDPATH_OK, 'extnh': False, 'extmsg': True},
     {'name': 'all-asn2', 'families': ALL_FAMILIES, 'asn4': False, 'addpath': [], 'extnh': False, 'extmsg': False},
     {'name': 'unicast-extmsg', 'families': [V4U, V6U], 'asn4': True, 'addpath': [], 'extnh': False, 'extmsg': True},
+    # (appended last: stored cases name a set by position) every family together with RFC 8950, which switches the
+    # MP_REACH next-hop length rules for all of them
+    {'name': 'all-extnh', 'families': ALL_FAMILIES, 'asn4': True, 'addpath': [], 'extnh': True, 'extmsg': False},
 ]
 NEG_NAMES = [s['name'] for s in NEG_SPECS]
 NEG_INDEX = {s['name']: i for i, s in enumerate(NEG_SPECS)}
